@@ -66,6 +66,13 @@ impl Extractor for SyncTraceContextV1 {
     }
 }
 
+// a length prefix read from a peer must not drive an allocation on its own:
+// reserve at most this many elements up front, the collection grows as the
+// elements are actually decoded
+fn wire_capacity(len: usize) -> usize {
+    len.min(1024)
+}
+
 pub type SyncRequestV1 = Vec<(ActorId, Vec<SyncNeedV1>)>;
 
 #[derive(Debug, thiserror::Error, Clone, PartialEq, Readable, Writable)]
@@ -258,11 +265,11 @@ where
 
         // Read need: HashMap<ActorId, Vec<RangeInclusive<CrsqlDbVersion>>>
         let need_len = usize::read_from(reader)?;
-        let mut need = HashMap::with_capacity(need_len);
+        let mut need = HashMap::with_capacity(wire_capacity(need_len));
         for _ in 0..need_len {
             let actor_id = ActorId::read_from(reader)?;
             let ranges_len = usize::read_from(reader)?;
-            let mut ranges = Vec::with_capacity(ranges_len);
+            let mut ranges = Vec::with_capacity(wire_capacity(ranges_len));
             for _ in 0..ranges_len {
                 let start = CrsqlDbVersion::read_from(reader)?;
                 let end = CrsqlDbVersion::read_from(reader)?;
@@ -273,15 +280,15 @@ where
 
         // Read partial_need: HashMap<ActorId, HashMap<CrsqlDbVersion, Vec<RangeInclusive<CrsqlSeq>>>>
         let partial_need_len = usize::read_from(reader)?;
-        let mut partial_need = HashMap::with_capacity(partial_need_len);
+        let mut partial_need = HashMap::with_capacity(wire_capacity(partial_need_len));
         for _ in 0..partial_need_len {
             let actor_id = ActorId::read_from(reader)?;
             let versions_len = usize::read_from(reader)?;
-            let mut versions_map = HashMap::with_capacity(versions_len);
+            let mut versions_map = HashMap::with_capacity(wire_capacity(versions_len));
             for _ in 0..versions_len {
                 let version = CrsqlDbVersion::read_from(reader)?;
                 let seq_ranges_len = usize::read_from(reader)?;
-                let mut seq_ranges = Vec::with_capacity(seq_ranges_len);
+                let mut seq_ranges = Vec::with_capacity(wire_capacity(seq_ranges_len));
                 for _ in 0..seq_ranges_len {
                     let start = CrsqlSeq::read_from(reader)?;
                     let end = CrsqlSeq::read_from(reader)?;
@@ -384,7 +391,7 @@ where
             1 => {
                 let version = CrsqlDbVersion::read_from(reader)?;
                 let seqs_len = usize::read_from(reader)?;
-                let mut seqs = Vec::with_capacity(seqs_len);
+                let mut seqs = Vec::with_capacity(wire_capacity(seqs_len));
                 for _ in 0..seqs_len {
                     let start = CrsqlSeq::read_from(reader)?;
                     let end = CrsqlSeq::read_from(reader)?;
